@@ -81,12 +81,152 @@ HelperApply(h, a, x) ==
       [] h = "positive"      -> IF IsInt(x) THEN Ok(BoolV(x.i > 0)) ELSE IllTyped
       [] h = "even"          -> IF IsInt(x) /\ x.i >= 0 THEN Ok(BoolV(Mod(x.i, 2) = 0)) ELSE IllTyped
 
+-----------------------------------------------------------------------------
+(* General helper steps: any number of parameters, each a constant, an option, or a named       *)
+(* constant callable (the callables are defined on both sides: here and in the harness).        *)
+PC(c) == [mode |-> "const", c |-> c]
+PO(p) == [mode |-> "opt", p |-> p]
+PF(f) == [mode |-> "fn", f |-> f]
+HelperG(h, ps) == [k |-> "helperG", h |-> h, ps |-> ps]
+Fv(f) == [t |-> "F", f |-> f]                  \* a callable as a parameter value
+
+\* the named callables; a = sequence of arguments
+FnApply(f, a) ==
+    CASE f = "g"     -> IF Len(a) = 1 THEN Ok(Tv("g", a)) ELSE IllTyped            \* uninterpreted, unary
+      [] f = "h2"    -> IF Len(a) = 2 THEN Ok(Tv("h2", a)) ELSE IllTyped           \* uninterpreted, binary: argument order visible
+      [] f = "inc"   -> IF Len(a) = 1 /\ IsInt(a[1]) THEN Ok(I(a[1].i + 1)) ELSE IllTyped
+      [] f = "dup"   -> IF Len(a) = 1 THEN Ok(Lv(<<a[1], a[1]>>)) ELSE IllTyped
+      [] f = "isPos" -> IF Len(a) = 1 /\ IsInt(a[1]) THEN Ok(BoolV(a[1].i > 0)) ELSE IllTyped
+      [] f = "isBig" -> IF Len(a) = 1 /\ IsInt(a[1]) THEN Ok(BoolV(a[1].i > 1)) ELSE IllTyped
+      [] f = "ident" -> IF Len(a) = 1 THEN Ok(a[1]) ELSE IllTyped
+
+\* string-keyed dictionaries: callables on keys / items
+KeyFn(f, k) == IF f = "kz" THEN k \o "z" ELSE k
+KeyPred(f, k) == IF f = "isA" THEN k = "a" ELSE TRUE
+
+Truthy(v) ==
+    CASE v.t = "b" -> v.b
+      [] v.t = "i" -> v.i # 0
+      [] v.t = "n" -> FALSE
+      [] v.t \in {"l", "u"} -> Len(v.l) > 0
+      [] v.t = "e" -> v.e # {}
+      [] OTHER -> TRUE
+
+AllOk(rs) == \A i \in 1 .. Len(rs) : rs[i].ok
+FirstBad(rs) == rs[CHOOSE i \in 1 .. Len(rs) : ~rs[i].ok /\ \A j \in 1 .. i - 1 : rs[j].ok]
+Vals(rs) == [i \in 1 .. Len(rs) |-> rs[i].v]
+MapSeq(f, xs) == [i \in 1 .. Len(xs) |-> FnApply(f, <<xs[i]>>)]
+
+RECURSIVE FoldL(_, _, _, _)
+FoldL(f, acc, xs, i) ==       \* functools.reduce: f(f(f(acc, x1), x2), x3)
+    IF i > Len(xs) THEN Ok(acc)
+    ELSE LET r == FnApply(f, <<acc, xs[i]>>) IN IF ~r.ok THEN r ELSE FoldL(f, r.v, xs, i + 1)
+
+IsBoolV(v) == v.t = "b"
+IsDictV(v) == v.t = "d"
+IntDict(v) == IsDictV(v) /\ \A k \in DOMAIN v.d : IsInt(v.d[k])
+
+InstanceOf(ty, x) ==          \* Python: bool is a subclass of int
+    CASE ty = "int" -> x.t \in {"i", "b"}
+      [] ty = "str" -> x.t = "s"
+      [] ty = "list" -> x.t = "l"
+      [] ty = "bool" -> x.t = "b"
+
+\* helper h with evaluated parameters a (a sequence) applied to input x
+HelperGApply(h, a, x) ==
+    CASE h = "map"     -> IF x.t = "l" /\ a[1].t = "F"
+                          THEN (LET rs == MapSeq(a[1].f, x.l) IN IF AllOk(rs) THEN Ok(Lv(Vals(rs))) ELSE FirstBad(rs))
+                          ELSE IllTyped
+      [] h = "filter"  -> IF x.t = "l" /\ a[1].t = "F"
+                          THEN (LET rs == MapSeq(a[1].f, x.l) IN
+                                IF AllOk(rs) THEN Ok(Lv(SelectSeq(x.l, LAMBDA e : Truthy(FnApply(a[1].f, <<e>>).v)))) ELSE FirstBad(rs))
+                          ELSE IllTyped
+      [] h = "reduce"  -> IF x.t = "l" /\ a[1].t = "F"
+                          THEN (IF Len(a) = 2 THEN FoldL(a[1].f, a[2], x.l, 1)
+                                ELSE IF Len(x.l) = 0 THEN IllTyped ELSE FoldL(a[1].f, x.l[1], x.l, 2))
+                          ELSE IllTyped
+      [] h = "into"    -> IF x.t \in {"l", "u"} /\ a[1].t = "F" THEN FnApply(a[1].f, x.l) ELSE IllTyped
+      [] h = "flatten" -> IF x.t = "l" /\ \A i \in 1 .. Len(x.l) : x.l[i].t = "l"
+                          THEN Ok(Lv(Cat([i \in 1 .. Len(x.l) |-> x.l[i].l]))) ELSE IllTyped
+      [] h = "flatmap" -> IF x.t = "l" /\ a[1].t = "F"
+                          THEN (LET rs == MapSeq(a[1].f, x.l) IN
+                                IF ~AllOk(rs) THEN FirstBad(rs)
+                                ELSE IF \A i \in 1 .. Len(rs) : rs[i].v.t = "l" THEN Ok(Lv(Cat([i \in 1 .. Len(rs) |-> rs[i].v.l])))
+                                ELSE IllTyped)
+                          ELSE IllTyped
+      [] h = "invert"  -> IF Len(a) = 0 THEN Ok(BoolV(~Truthy(x)))
+                          ELSE (LET r == FnApply(a[1].f, <<x>>) IN IF r.ok THEN Ok(BoolV(~Truthy(r.v))) ELSE r)
+      [] h = "all"     -> LET rs == [i \in 1 .. Len(a) |-> FnApply(a[i].f, <<x>>)] IN
+                          IF AllOk(rs) THEN Ok(BoolV(\A i \in 1 .. Len(rs) : Truthy(rs[i].v))) ELSE IllTyped
+      [] h = "any"     -> LET rs == [i \in 1 .. Len(a) |-> FnApply(a[i].f, <<x>>)] IN
+                          IF AllOk(rs) THEN Ok(BoolV(\E i \in 1 .. Len(rs) : Truthy(rs[i].v))) ELSE IllTyped
+      [] h = "has_remainder" -> IF IsInt(x) /\ IsInt(a[1]) /\ IsInt(a[2]) /\ a[1].i > 0 /\ x.i >= 0
+                                THEN Ok(BoolV(Mod(x.i, a[1].i) = a[2].i)) ELSE IllTyped      \* (divisor, remainder)
+      [] h = "negative"      -> IF IsInt(x) THEN Ok(BoolV(x.i < 0)) ELSE IllTyped
+      [] h = "non_positive"  -> IF IsInt(x) THEN Ok(BoolV(x.i <= 0)) ELSE IllTyped
+      [] h = "non_negative"  -> IF IsInt(x) THEN Ok(BoolV(x.i >= 0)) ELSE IllTyped
+      [] h = "odd"           -> IF IsInt(x) /\ x.i >= 0 THEN Ok(BoolV(Mod(x.i, 2) = 1)) ELSE IllTyped
+      [] h = "is_not_none"   -> Ok(BoolV(x.t # "n"))
+      [] h = "one_of"        -> Ok(BoolV(\E i \in 1 .. Len(a) : a[i] = x))
+      [] h = "none_of"       -> Ok(BoolV(\A i \in 1 .. Len(a) : a[i] # x))
+      [] h = "intersects"    -> IF IsSeq(x) /\ IsSeq(a[1]) THEN Ok(BoolV(Elems(x) \cap Elems(a[1]) # {})) ELSE IllTyped
+      [] h = "disjoint_from" -> IF IsSeq(x) /\ IsSeq(a[1]) THEN Ok(BoolV(Elems(x) \cap Elems(a[1]) = {})) ELSE IllTyped
+      [] h = "get"           -> \* get(key, default)(container)
+             IF IsSeq(x) /\ IsInt(a[1]) /\ a[1].i >= 0 THEN (IF a[1].i < Len(x.l) THEN Ok(x.l[a[1].i + 1]) ELSE Ok(a[2]))
+             ELSE IF IsDictV(x) /\ a[1].t = "s" /\ Len(a[1].s) = 1 /\ a[1].s[1].k = "c"
+                  THEN (IF a[1].s[1].c \in DOMAIN x.d THEN Ok(x.d[a[1].s[1].c]) ELSE Ok(a[2]))
+             ELSE IllTyped
+      [] h = "get_from"      -> \* get_from(container, default)(key)
+             IF IsSeq(a[1]) /\ IsInt(x) /\ x.i >= 0 THEN (IF x.i < Len(a[1].l) THEN Ok(a[1].l[x.i + 1]) ELSE Ok(a[2]))
+             ELSE IllTyped
+      [] h = "merge"         -> IF IsDictV(x) /\ IsDictV(a[1])        \* {**input, **parameter}: the parameter wins
+                                THEN Ok(Dv([k \in DOMAIN x.d \cup DOMAIN a[1].d |-> IF k \in DOMAIN a[1].d THEN a[1].d[k] ELSE x.d[k]]))
+                                ELSE IllTyped
+      [] h = "map_keys"      -> IF IsDictV(x) /\ a[1].t = "F"
+                                THEN Ok(Dv([k2 \in {KeyFn(a[1].f, k) : k \in DOMAIN x.d} |->
+                                             x.d[CHOOSE k \in DOMAIN x.d : KeyFn(a[1].f, k) = k2]]))
+                                ELSE IllTyped
+      [] h = "map_values"    -> IF IsDictV(x) /\ a[1].t = "F"
+                                THEN (IF \A k \in DOMAIN x.d : FnApply(a[1].f, <<x.d[k]>>).ok
+                                      THEN Ok(Dv([k \in DOMAIN x.d |-> FnApply(a[1].f, <<x.d[k]>>).v])) ELSE IllTyped)
+                                ELSE IllTyped
+      [] h = "map_items"     -> IF IntDict(x)                           \* (k, v) -> (k + "z", v + 1)
+                                THEN Ok(Dv([k2 \in {KeyFn("kz", k) : k \in DOMAIN x.d} |->
+                                             I(x.d[CHOOSE k \in DOMAIN x.d : KeyFn("kz", k) = k2].i + 1)]))
+                                ELSE IllTyped
+      [] h = "filter_keys"   -> IF IsDictV(x) /\ a[1].t = "F"
+                                THEN Ok(Dv([k \in {j \in DOMAIN x.d : KeyPred(a[1].f, j)} |-> x.d[k]])) ELSE IllTyped
+      [] h = "filter_values" -> IF IntDict(x) /\ a[1].t = "F"
+                                THEN Ok(Dv([k \in {j \in DOMAIN x.d : Truthy(FnApply(a[1].f, <<x.d[j]>>).v)} |-> x.d[k]])) ELSE IllTyped
+      [] h = "filter_items"  -> IF IntDict(x)                           \* keep (k, v) with k = "a" or v > 1
+                                THEN Ok(Dv([k \in {j \in DOMAIN x.d : j = "a" \/ x.d[j].i > 1} |-> x.d[k]])) ELSE IllTyped
+      [] h = "ensure"        -> LET r == FnApply(a[1].f, <<x>>) IN
+                                IF ~r.ok THEN r ELSE IF Truthy(r.v) THEN Ok(x) ELSE Fail("Assertion", {})
+      [] h = "instance_of"   -> Ok(BoolV(\E i \in 1 .. Len(a) : InstanceOf(a[i].f, x)))
+      [] h = "call_method"   -> \* call_method("count", v)(list): number of occurrences (the arguments are constants)
+                                IF x.t = "l" /\ a[1] = Str("count") THEN Ok(I(Cardinality({i \in 1 .. Len(x.l) : x.l[i] = a[2]}))) ELSE IllTyped
+      [] h = "get_attribute" -> IF IsInt(x) /\ a[1] = Str("real") THEN Ok(x)
+                                ELSE IF IsInt(x) /\ a[1] = Str("imag") THEN Ok(I(0)) ELSE IllTyped
+      [] h = "partial"       -> \* partial(h3, a1, c=a2)(x) = h3(a1, x, c=a2): positional arguments first
+                                Ok(Tv("h3", <<a[1], x, a[2]>>))
+
+PVal(pm, o) ==
+    CASE pm.mode = "const" -> Ok(pm.c)
+      [] pm.mode = "opt" -> IF Has(pm.p, o) THEN Ok(Get(pm.p, o)) ELSE Fail("KeyNotFound", {pm.p})
+      [] pm.mode = "fn" -> Ok(Fv(pm.f))
+
+ParamG(s, o) ==
+    LET rs == [i \in 1 .. Len(s.ps) |-> PVal(s.ps[i], o)] IN
+    IF AllOk(rs) THEN Ok(Vals(rs))
+    ELSE Fail("KeyNotFound", UNION {rs[i].keys : i \in {j \in 1 .. Len(rs) : ~rs[j].ok}})
+
 \* the parameter of a step under options o: Ok(value) / missing key
 Param(s, o) ==
     CASE s.k = "dec" -> IF Has(s.p, o) THEN Ok(Get(s.p, o))
                         ELSE IF ~IsAbsent(s.dflt) THEN Ok(s.dflt) ELSE Fail("KeyNotFound", {s.p})
       [] s.k = "helper" /\ s.mode = "opt" -> IF Has(s.p, o) THEN Ok(Get(s.p, o)) ELSE Fail("KeyNotFound", {s.p})
       [] s.k = "helper" /\ s.mode = "const" -> Ok(s.c)
+      [] s.k = "helperG" -> ParamG(s, o)
       [] OTHER -> Ok(Nv)
 
 StepApply(s, x, o) ==
@@ -95,6 +235,7 @@ StepApply(s, x, o) ==
     ELSE CASE s.k = "dec" -> Ok(Tv(s.name, <<x, p.v>>))
            [] s.k = "plain" -> Ok(Tv(s.name, <<x>>))
            [] s.k = "helper" -> HelperApply(s.h, p.v, x)
+           [] s.k = "helperG" -> HelperGApply(s.h, p.v, x)
            [] s.k = "empty" -> Ok(x)
 
 \* all step parameters are evaluated when the pipeline is evaluated, before any step is applied
@@ -110,7 +251,8 @@ Fold(steps, i, x, o) ==
 Transform(term, x, o) ==
     LET steps == Flatten(term) pk == ParamsOk(steps, o) IN IF ~pk.ok THEN pk ELSE Fold(steps, 1, x, o)
 
-StepKeyPaths(s) == IF s.k = "dec" \/ (s.k = "helper" /\ s.mode = "opt") THEN {s.p} ELSE {}
+StepKeyPaths(s) == IF s.k = "dec" \/ (s.k = "helper" /\ s.mode = "opt") THEN {s.p}
+                   ELSE IF s.k = "helperG" THEN {s.ps[i].p : i \in {j \in 1 .. Len(s.ps) : s.ps[j].mode = "opt"}} ELSE {}
 \* keys(): the option keys of the parameters that are present (a missing one without default fails)
 KeysOfP(term, o) ==
     LET steps == Flatten(term) pk == ParamsOk(steps, o) IN
@@ -121,7 +263,7 @@ ExplainP(term, o) ==
     UNION {{p \in StepKeyPaths(steps[i]) : Has(p, o) \/ steps[i].k # "dec" \/ IsAbsent(steps[i].dflt)} : i \in 1 .. Len(steps)}
 
 Names(term) == LET steps == Flatten(term) IN
-               [i \in 1 .. Len(steps) |-> IF steps[i].k = "helper" THEN steps[i].h ELSE steps[i].name]
+               [i \in 1 .. Len(steps) |-> IF steps[i].k \in {"helper", "helperG"} THEN steps[i].h ELSE steps[i].name]
 
 -----------------------------------------------------------------------------
 (* Laws (checked by TLC on the bounded term universe) *)
